@@ -38,11 +38,15 @@ type obj struct {
 	val   atomic.Int64
 	sched atomic.Bool
 	lg    *elog
+	gate  *sched.Gate // controlled scheduling: callbacks are stopping points
 }
 
 func key(id int) []byte { return []byte{byte(id)} }
 
 func (o *obj) BatchWrite(b kvstore.BatchedMutations) {
+	if o.gate != nil {
+		o.gate.Wait("cb:batchwrite")
+	}
 	v := o.val.Load()
 	buf := make([]byte, 8)
 	binary.BigEndian.PutUint64(buf, uint64(v))
@@ -51,20 +55,27 @@ func (o *obj) BatchWrite(b kvstore.BatchedMutations) {
 		panic(err)
 	}
 }
-func (o *obj) BatchWriteDone()           { o.lg.add(core.Ev{"op": "done", "o": o.id}) }
+func (o *obj) BatchWriteDone() {
+	if o.gate != nil {
+		o.gate.Wait("cb:done")
+	}
+	o.lg.add(core.Ev{"op": "done", "o": o.id})
+}
 func (o *obj) BatchWriteScheduled() bool { return !o.sched.CompareAndSwap(false, true) }
 func (o *obj) ResetBatchWriteScheduled() { o.sched.Store(false) }
 
 // logStore wraps a KVStore so that batch commits are observed.
 type logStore struct {
 	kvstore.KVStore
-	lg *elog
+	lg   *elog
+	gate *sched.Gate
 }
 
 type logBatch struct {
 	kvstore.BatchedMutations
 	lg    *elog
 	items []any
+	gate  *sched.Gate
 }
 
 func (s *logStore) Batched() (kvstore.BatchedMutations, error) {
@@ -72,7 +83,7 @@ func (s *logStore) Batched() (kvstore.BatchedMutations, error) {
 	if err != nil {
 		return nil, err
 	}
-	return &logBatch{BatchedMutations: b, lg: s.lg, items: []any{}}, nil
+	return &logBatch{BatchedMutations: b, lg: s.lg, items: []any{}, gate: s.gate}, nil
 }
 
 func (b *logBatch) Set(k kvstore.Key, v kvstore.Value) error {
@@ -81,6 +92,9 @@ func (b *logBatch) Set(k kvstore.Key, v kvstore.Value) error {
 }
 
 func (b *logBatch) Commit() error {
+	if b.gate != nil {
+		b.gate.Wait("cb:commit")
+	}
 	err := b.BatchedMutations.Commit()
 	if err == nil {
 		b.lg.add(core.Ev{"op": "commit", "items": b.items})
@@ -150,7 +164,7 @@ func (r *run) finish(enc *json.Encoder, wait time.Duration) (hung int) {
 		}
 	}
 	time.Sleep(30 * time.Millisecond) // let a writer that is still alive commit what it holds (time-out path)
-	st := make([]any, 4) // the trace configuration has 4 objects
+	st := make([]any, 4)              // the trace configuration has 4 objects
 	for i := 1; i <= 4; i++ {
 		v, err := r.db.Get(key(i))
 		if err != nil {
@@ -174,6 +188,7 @@ func drive(args []string) int {
 	seed := fs.Int64("seed", 1, "")
 	traces := fs.Int("traces", 40, "")
 	forced := fs.Bool("forced", true, "include the forced schedules")
+	controlled := fs.Int("controlled", 40, "runs under the random controlled scheduler")
 	out := fs.String("out", "", "")
 	_ = fs.Parse(args)
 	f, err := os.Create(*out)
@@ -201,6 +216,11 @@ func drive(args []string) int {
 			}
 		}
 		hangs += gomaxprocs1(enc)
+		n++
+	}
+	for tr := 0; tr < *controlled; tr++ {
+		runtime.GOMAXPROCS(16)
+		hangs += controlledRun(enc, rng, gate)
 		n++
 	}
 	for tr := 0; tr < *traces; tr++ {
@@ -246,6 +266,69 @@ func gomaxprocs1(enc *json.Encoder) int {
 	defer runtime.GOMAXPROCS(old)
 	r := newRun(4, 2, 20*time.Millisecond, 2)
 	r.goThread(1, func() { r.enqueue(1, 1); r.stop(1) })
+	return r.finish(enc, 3*time.Second)
+}
+
+// controlledRun: every yield point and every callback is a stopping point; a random scheduler releases one parked
+// goroutine at a time (whenever the process is quiescent), so the run explores arrival orders that free running
+// practically never produces (Stop while a producer sits between its check and its send, while the writer is inside
+// BatchWrite / Commit / Done, Flush in between, ...).
+func controlledRun(enc *json.Encoder, rng *rand.Rand, gate *sched.Gate) int {
+	q := []int{0, 1, 2}[rng.Intn(3)]
+	b := 1 + rng.Intn(2)
+	nobj := 1 + rng.Intn(2)
+	np := 1 + rng.Intn(3)
+	r := newRun(q, b, 3*time.Millisecond, nobj)
+	r.bw = kvstore.NewBatchedWriter(&logStore{KVStore: r.db, lg: r.lg, gate: gate}, kvstore.WithQueueSize(q), kvstore.WithBatchSize(b), kvstore.WithBatchTimeout(3*time.Millisecond))
+	for _, o := range r.objs {
+		o.gate = gate
+	}
+	gate.HoldAll()
+	per := 1 + rng.Intn(3)
+	for p := 1; p <= np; p++ {
+		p := p
+		pr := rand.New(rand.NewSource(rng.Int63()))
+		r.goThread(p, func() {
+			for i := 0; i < per; i++ {
+				r.enqueue(p, 1+pr.Intn(nobj))
+				if pr.Intn(3) == 0 {
+					r.bw.Flush()
+				}
+			}
+		})
+	}
+	stopAfter := rng.Intn(8)
+	stopped := false
+	allDone := func() bool {
+		r.mu.Lock()
+		defer r.mu.Unlock()
+		for _, ch := range r.threads {
+			select {
+			case <-ch:
+			default:
+				return false
+			}
+		}
+		return true
+	}
+	for step := 0; step < 400; step++ {
+		sched.QuiesceOpt(20*time.Millisecond, 2, false)
+		if step == stopAfter && !stopped {
+			stopped = true
+			r.goThread(6, func() { r.stop(6) })
+			continue
+		}
+		pts := gate.ParkedPoints()
+		if len(pts) == 0 {
+			if stopped && allDone() {
+				break
+			}
+			time.Sleep(2 * time.Millisecond) // the writer is waiting for its time-out
+			continue
+		}
+		gate.Release(pts[rng.Intn(len(pts))])
+	}
+	gate.ReleaseAll()
 	return r.finish(enc, 3*time.Second)
 }
 
